@@ -3,7 +3,7 @@ CONSTANTS
   PortCap = 4
   Dev = {}
   FifoOnly = FALSE
-INVARIANTS AtMostOnce NoError Accounting Bounded
+INVARIANTS NoError
 CONSTRAINT Mark
 POSTCONDITION Accepted
 CHECK_DEADLOCK FALSE
